@@ -467,6 +467,7 @@ req_sketch<T, C, A> req_sketch<T, C, A>::deserialize(std::istream& is, const Ser
 
   const bool raw_items = flags_byte & (1 << flags::RAW_ITEMS);
   const bool is_level_0_sorted = flags_byte & (1 << flags::IS_LEVEL_ZERO_SORTED);
+  check_shape(num_levels, raw_items, num_raw_items);
   std::vector<Compactor, AllocCompactor> compactors(allocator);
 
   uint64_t n = 1;
@@ -493,6 +494,7 @@ req_sketch<T, C, A> req_sketch<T, C, A>::deserialize(std::istream& is, const Ser
     const auto begin = compactors[0].begin();
     const auto end = compactors[0].end();
     n = compactors[0].get_num_items();
+    if (n == 0) throw std::invalid_argument("Possible corruption: non-empty sketch with no items");
     auto min_it = begin;
     auto max_it = begin;
     for (auto it = begin; it != end; ++it) {
@@ -543,6 +545,7 @@ req_sketch<T, C, A> req_sketch<T, C, A>::deserialize(const void* bytes, size_t s
 
   const bool raw_items = flags_byte & (1 << flags::RAW_ITEMS);
   const bool is_level_0_sorted = flags_byte & (1 << flags::IS_LEVEL_ZERO_SORTED);
+  check_shape(num_levels, raw_items, num_raw_items);
   std::vector<Compactor, AllocCompactor> compactors(allocator);
 
   uint64_t n = 1;
@@ -574,6 +577,7 @@ req_sketch<T, C, A> req_sketch<T, C, A>::deserialize(const void* bytes, size_t s
     const auto begin = compactors[0].begin();
     const auto end = compactors[0].end();
     n = compactors[0].get_num_items();
+    if (n == 0) throw std::invalid_argument("Possible corruption: non-empty sketch with no items");
     auto min_it = begin;
     auto max_it = begin;
     for (auto it = begin; it != end; ++it) {
@@ -700,6 +704,16 @@ void req_sketch<T, C, A>::check_preamble_ints(uint8_t preamble_ints, uint8_t num
   if (preamble_ints != expected_preamble_ints) {
     throw std::invalid_argument("Possible corruption: preamble ints must be "
         + std::to_string(expected_preamble_ints) + ", got " + std::to_string(preamble_ints));
+  }
+}
+
+template<typename T, typename C, typename A>
+void req_sketch<T, C, A>::check_shape(uint8_t num_levels, bool raw_items, uint8_t num_raw_items) {
+  // a non-empty sketch has at least one level; the raw items format is one level of 1..MIN_K items
+  if (num_levels == 0) throw std::invalid_argument("Possible corruption: non-empty sketch with 0 levels");
+  if (raw_items && (num_levels != 1 || num_raw_items == 0 || num_raw_items > req_constants::MIN_K)) {
+    throw std::invalid_argument("Possible corruption: raw items format with " + std::to_string(num_levels)
+        + " levels and " + std::to_string(num_raw_items) + " items");
   }
 }
 
